@@ -4,6 +4,11 @@ import json, subprocess
 
 CHECKS = {
  # id: (engine, level, technique, level text, level note, design_ref)
+ "C06": ("muxdiff", "model_checking",
+         "TLA+ routing reference (ResMux.tla: most-specific match, params, group templates, acceptance rules): TLC model-checks that the most specific match is well defined for every conflict-free pattern set of the bound, and judges every registration outcome and every GetHandler result recorded from real Mux configurations (all mount arrangements) against the reference (TraceMux.tla)",
+         "Bounded-exhaustive model checking of the routing order plus conformance of the real mux on enumerated and random configurations x names; a violation is a real registration outcome or lookup result (or a lookup panic) that contradicts the reference.",
+         "Acceptance is judged only where the documentation is unambiguous (valid, conflict-free => accepted; invalid pattern/group, duplicate structure => rejected); otherwise the implementation's outcome is taken and routing judged on the accepted set. Handler identity observed through a marker call method.",
+         "4.2 C06"),
  "C17": ("pattern", "model_checking",
          "TLA+ reference grammar (ResPattern.tla): TLC model-checks the grammar's relations exhaustively over all string pairs up to the bound, and judges every recorded call of the real pattern operations (bounded-exhaustive + seeded random inputs) against the reference (TracePattern.tla)",
          "Bounded-exhaustive model checking of the token-wise grammar plus conformance of every real Pattern/validity operation result on all strings up to the bound; a violation is a real call whose result differs from the reference.",
